@@ -405,8 +405,36 @@ def equ_chain_programs(rng, k):
     return out
 
 
-def c17_pool(rng, n):
+# pairs (Q, P): Q is rejected LATE (after operands were resolved), P uses the textually identical operand expression on the
+# same mnemonic where the symbol means something else (another statement index, an EQU instead of a label, another
+# value), or the same list text under the other data directive: whatever Q left behind in the interpreter must not
+# reach P
+SHARED_TEXT_PAIRS = [
+    ([" ORG $0E00\n", " NOP\n", "TABLE FCB 1,2,3\n", " LDA TABLE+1\n", " LDX NOSUCH\n"],
+     [" ORG $0E00\n", "TABLE FCB 1,2,3\n", " LDA TABLE+1\n", " RTS\n"]),
+    (["TABLE EQU $43\n", " LDA TABLE+1\n", " LDX NOSUCH\n"], ["TABLE EQU $21\n", " LDA TABLE+1\n"]),
+    ([" ORG $1000\n", "T2 NOP\n", " JMP T2+2\n", " BRA FAR\n", " RMB 300\n", "FAR NOP\n"],
+     [" ORG $2000\n", " NOP\n", " NOP\n", "T2 NOP\n", " JMP T2+2\n"]),
+    (["MSG FCC /AB/\n", " LDX #MSG+1\n", " LDA NOSUCH\n"], [" NOP\n", "MSG FCC /AB/\n", " LDX #MSG+1\n"]),
+    (["V EQU 5\n", " LDB #V*2\n", " LDU NOSUCH\n"], ["V EQU 9\n", " LDB #V*2\n"]),
+    (["V EQU 5\n", " LDB #V*2\n", " LDU NOSUCH\n"], [" ORG $0010\n", "V NOP\n", " LDB #V*2\n"]),
+    ([" FCB 1,2,3\n"], [" FDB 1,2,3\n"]),
+    ([" FDB $10,$20\n", " LDA NOSUCH\n"], [" FCB $10,$20\n"]),
+    (["L1 NOP\n", " LEAX L1-1,PCR\n", " LDA NOSUCH\n"], [" RMB 200\n", "L1 NOP\n", " LEAX L1-1,PCR\n"]),
+]
+
+
+def c17_pool(rng, n, pairs=None):
     progs = [list(p) for p in INTERNAL_PROGRAMS] + equ_chain_programs(rng, 24)
+    for q_, p_ in SHARED_TEXT_PAIRS:
+        iq = progs.index(list(q_)) if list(q_) in progs else len(progs)
+        if iq == len(progs):
+            progs.append(list(q_))
+        ip = progs.index(list(p_)) if list(p_) in progs else len(progs)
+        if ip == len(progs):
+            progs.append(list(p_))
+        if pairs is not None:
+            pairs.append((iq, ip))
     seen = {tuple(p) for p in progs}
     while len(progs) < n:
         p = asmgen.rand_program(rng)
@@ -533,7 +561,8 @@ def run_c17(tier, rng, rep, info, deadline):
     n_pool = {"quick": 600, "thorough": 10000}[tier]
     n_hist = {"quick": 1200, "thorough": 30000}[tier]
     n_cli = {"quick": 60, "thorough": 600}[tier]
-    pool = c17_pool(rng, n_pool)
+    pairs = []
+    pool = c17_pool(rng, n_pool, pairs)
     # (a) every program first in a fresh interpreter, 5 hash seeds
     jobs = []
     for seed in HASHSEEDS:
@@ -574,6 +603,10 @@ def run_c17(tier, rng, rep, info, deadline):
         if k and rng.random() < 0.1:
             p = h[rng.randrange(k)]
         hists.append(h + [p])
+    for iq, ip in pairs:                       # Q then P, and P Q P, for every shared-text pair
+        hists.append([iq, ip])
+        hists.append([ip, iq, ip])
+        hists.append([iq, iq, ip])
     jobs = []
     for c, ch in enumerate(_chunks(list(range(len(hists))), 10 if tier == "quick" else 40)):
         jobs.append(([[pool[i] for i in hists[hn]] for hn in ch], HASHSEEDS[c % len(HASHSEEDS)], ch))
